@@ -26,3 +26,15 @@ Definition bf_prop (c : bf_case) : bool :=
   if transform_depth_le 1 p && simple_fills p then
     multiset_eqb (snd c) (map (fun c => (fst (fst c), snd (fst c))) (placements p aid))
   else true.
+
+(* Paint.depth_first (added by the COLRv0 ordering fix): pre-order contexts = [ctxs] *)
+Definition model_dfs (p : QPaint) : list (string * aff QcOps) :=
+  map (fun c => (fst (fst c), snd (fst c))) (glyph_ctxs (ctxs p aid)).
+Definition df_agree (c : bf_case) : bool := list_eqb gt_eqb (model_dfs (fst c)) (snd c).
+(* in pre-order the glyphs come out in paint order: for nanoemoji-shaped trees, exactly the
+   COLR placements as a list *)
+Definition df_prop (c : bf_case) : bool :=
+  let p := fst c in
+  if transform_depth_le 1 p && simple_fills p then
+    list_eqb gt_eqb (snd c) (map (fun c => (fst (fst c), snd (fst c))) (placements p aid))
+  else true.
